@@ -40,7 +40,7 @@ def gen_viewer(rng, native_block):
     for _ in range(rng.randrange(0, 20)):
         r = rng.random()
         if r < 0.3:
-            k = rng.choice([rng.randrange(1, 127), rng.randrange(0x80, 0xD800), rng.randrange(0xE000, 0x110000), 0xFFFF, 0x10FFFF,
+            k = rng.choice([0, rng.randrange(1, 127), rng.randrange(0x80, 0xD800), rng.randrange(0xE000, 0x110000), 0xFFFF, 0x10FFFF,
                             rng.choice(list(lp.REVERSE_MAP))])
             msgs.append(key_event(rng.choice([0, 1]), k))
         elif r < 0.5:
@@ -54,8 +54,10 @@ def gen_viewer(rng, native_block):
             n = rng.choice([0, 1, 2, 17, 255, 256, 4000])
             msgs.append(cut_text(bytes(rng.getrandbits(8) for _ in range(n))))
         elif r < 0.94:
-            msgs.append(qemu_key(rng.choice([0, 1, 256, 65535]), rng.choice([rng.randrange(1, 0xD800), rng.choice(list(lp.REVERSE_MAP))]),
-                                 rng.getrandbits(32)))
+            # keysym 0 ("no symbol", the scancode alone identifies the key) with any scancode is legal too
+            msgs.append(qemu_key(rng.choice([0, 1, 256, 65535]),
+                                 rng.choice([0, 0, rng.randrange(1, 0xD800), rng.choice(list(lp.REVERSE_MAP))]),
+                                 rng.choice([0, 0x1d, 0x56, 0xa0, 0xe01d, rng.getrandbits(32)])))
         else:
             msgs.append(set_pixel_format(native_block))      # re-selecting the format in force changes nothing
     return version, pwreq, hs, msgs
